@@ -165,7 +165,9 @@ def findlabels_pre_310(code, opc):
 NO_LINE_NUMBER = -128
 
 
-def findlinestarts(code, dup_lines=False, signed_line_deltas=True):
+def findlinestarts(
+    code, dup_lines=False, signed_line_deltas=True, stop_at_code_end=True
+):
     """Find the offsets in a byte code which are start of lines in the source.
 
     Generate pairs (offset, lineno) as described in Python/compile.c.
@@ -173,6 +175,10 @@ def findlinestarts(code, dup_lines=False, signed_line_deltas=True):
     Line increments in ``co_lnotab`` are signed bytes from Python 3.6 on;
     before that they are unsigned. Pass ``signed_line_deltas=False`` for
     bytecode older than 3.6.
+
+    Python 3.8 and 3.9 stop reading ``co_lnotab`` when the address reaches
+    the end of the bytecode; earlier versions report those entries too, so
+    pass ``stop_at_code_end=False`` for bytecode older than 3.8.
     """
 
     if hasattr(code, "co_lines"):
@@ -216,7 +222,7 @@ def findlinestarts(code, dup_lines=False, signed_line_deltas=True):
                         lastlineno = lineno
                         pass
                     offset += byte_incr
-                    if offset >= bytecode_len:
+                    if stop_at_code_end and offset >= bytecode_len:
                         # The rest of the ``lnotab byte offsets are past the end of
                         # the bytecode; any line numbers for these have been removed.
                         return
@@ -234,7 +240,15 @@ def findlinestarts(code, dup_lines=False, signed_line_deltas=True):
 def findlinestarts_pre36(code, dup_lines=False):
     """findlinestarts() for bytecode before 3.6, where the line
     increments of ``co_lnotab`` are unsigned bytes."""
-    return findlinestarts(code, dup_lines=dup_lines, signed_line_deltas=False)
+    return findlinestarts(
+        code, dup_lines=dup_lines, signed_line_deltas=False, stop_at_code_end=False
+    )
+
+
+def findlinestarts_36(code, dup_lines=False):
+    """findlinestarts() for 3.6 and 3.7 bytecode: signed line increments,
+    and entries at the end of the bytecode are still reported."""
+    return findlinestarts(code, dup_lines=dup_lines, stop_at_code_end=False)
 
 
 def instruction_size(op, opc):
